@@ -11,7 +11,7 @@
 From Verif Require Import Lib.Bytes Json.Ast Json.Parse Gen.GenConsts
      Net.IpC16 Net.ServerNameC16 Net.WellKnown Net.Resolve
      Net.PolicySpec Net.WellKnownSpec Net.ResolveSpec
-     Net.ResolveProofs Net.WellKnownProofs Net.PolicyProofs.
+     Net.ResolveProofs Net.WellKnownProofs Net.PolicyProofs Net.RoundTrip Net.RoundTripProofs.
 Open Scope N_scope.
 
 (* the size limit of the model is the constant of the source (regenerated on every run) *)
@@ -64,6 +64,34 @@ Proof. exact fed_before_legacy. Qed.
 Theorem literals_and_ports_look_nothing_up : forall wk srv name,
   ~ wants_well_known name -> probes wk srv name = [].
 Proof. exact no_lookup_unless_plain. Qed.
+
+(* ---------------- round trips, retries included ---------------- *)
+
+(* every connection attempt of a round trip - first pass and the retry pass after all targets
+   failed - goes to a target that the specification prescribes for the server name the round
+   trip was made for, hence with that target's Host header and TLS server name *)
+Theorem round_trip_attempts_follow_spec : forall wk srv dead name k r t o l,
+  srv_sane srv ->
+  round_trip true dead name (resolve wk srv name) None k = Some r ->
+  In (t, o) (rt_attempts r) -> resolves wk srv name (Targets l) -> In t l.
+Proof. exact attempts_follow_spec. Qed.
+
+(* with a resolution cache: attempts use cached or freshly resolved targets only, and the cache
+   only ever holds what a resolution of that name produced *)
+Theorem round_trip_attempts_usable : forall wks dead name resolved cache k r t o,
+  round_trip wks dead name resolved cache k = Some r ->
+  In (t, o) (rt_attempts r) -> usable wks name resolved cache t.
+Proof. exact attempts_are_usable. Qed.
+
+Theorem round_trip_cache_holds_resolution : forall wks dead name resolved cache k r l,
+  round_trip wks dead name resolved cache k = Some r -> rt_cache r = Some l ->
+  (wks = true /\ (cache = Some l \/ resolved = Targets l)) \/ (wks = false /\ cache = Some l).
+Proof. exact cache_holds_resolution. Qed.
+
+Theorem round_trip_success_has_completed_attempt : forall wks dead name resolved cache k r,
+  round_trip wks dead name resolved cache k = Some r -> rt_ok r = true ->
+  exists t, In (t, AOk) (rt_attempts r).
+Proof. exact success_has_ok_attempt. Qed.
 
 (* ---------------- well-known ---------------- *)
 
@@ -201,6 +229,10 @@ Print Assumptions invalid_delegate_refused.
 Print Assumptions at_most_one_well_known_lookup.
 Print Assumptions matrix_fed_before_matrix.
 Print Assumptions literals_and_ports_look_nothing_up.
+Print Assumptions round_trip_attempts_follow_spec.
+Print Assumptions round_trip_attempts_usable.
+Print Assumptions round_trip_cache_holds_resolution.
+Print Assumptions round_trip_success_has_completed_attempt.
 Print Assumptions well_known_accept_iff.
 Print Assumptions well_known_oracle_is_spec.
 Print Assumptions cache_lifetime_prefers_max_age.
